@@ -368,7 +368,7 @@ def gen_limits(repo, out):
     L += gen_parser_loop(texts[F_P], fns[F_P])
     L += gen_resolver_pairs(repo)
     L.append("end LaytheVerif.Gen\n")
-    write_if_changed(os.path.join(out, "Limits.lean"), "\n".join(L))
+    write_if_changed(os.path.join(out, "FrontLimits.lean"), "\n".join(L))
     return rows
 
 
